@@ -110,4 +110,123 @@ theorem C18_gen_init_class_root (W : World Unit) (cls fe eh : U) (md : Option Na
         · have h1' : ¬ (k : Int) < 1 := by omega
           ctx_simp [hcls, OVal.isUnprovided, h0, h1, h1']
 
+/-! ### `Options.make_context` (what `__field_setter__`, `init_dataclass` and the generated `__init__` call) and
+`RuntimeContext.enter` — through the translated constructor -/
+
+/-- an `Options` object as `make_context` and `__init__` read it -/
+def encOptionsO (md : Option Nat) : U := .obj "Options" [("max_depth", encMaxDepth md), ("override", .bool false)]
+
+/-- the enclosing context, if any: its level, its routes, its options -/
+def encParent : Option (Ctx × List U) → U
+  | none => .none
+  | some p => .obj "RuntimeContext" [("depth", .int p.1.depth), ("routes", .seq .list p.2), ("options", encOptionsO p.1.md)]
+
+def parentDepth : Option (Ctx × List U) → Nat
+  | none => 0
+  | some p => p.1.depth
+
+/-- a constructed context: its level, or the depth error the construction raised -/
+def decodeNew (r : M Unit U) : Option (Out Nat) :=
+  match r with
+  | .ok self' => (match getattr self' "depth" with
+    | .ok (.int d) => some (.ok d.toNat)
+    | _ => none)
+  | .error (.raised (.obj "DepthExceedError" _)) => some (.err { depth := true })
+  | .error _ => none
+
+/-- the object `__init__` builds when no route is given -/
+def builtCtx (parent : U) (depth : Int) (routes : List U) (cls fe eh o : U) : U :=
+  .obj "RuntimeContext" [("context", parent), ("depth", .int depth), ("route", .none), ("routes", .seq .list routes),
+    ("errors", .seq .list []), ("tmp_errors", .seq .list []), ("warnings", .seq .list []), ("cls", cls),
+    ("error_hooks", eh), ("options", o), ("force_error", fe)]
+
+def depthErr (md : Option Nat) (depth : Int) (cls : U) : U :=
+  .obj "DepthExceedError" [("max_depth", encMaxDepth md), ("depth", .int depth), ("type", cls)]
+
+/-- `__init__` for a class, under a parent given by what `__init__` reads of it -/
+theorem init_under (W : World Unit) (pc : String) (pattrs : List (String × U)) (pd : Nat) (rs : List U) (cls fe eh : U)
+    (oc : String) (oattrs : List (String × U)) (md : Option Nat) (hcls : cls.isNone = false)
+    (h1 : lookupAttr "depth" pattrs = some (.int pd)) (h2 : lookupAttr "routes" pattrs = some (.seq .list rs))
+    (h3 : lookupAttr "max_depth" oattrs = some (encMaxDepth md)) :
+    Options.RuntimeContext_init W (.obj "RuntimeContext" []) (.obj pc pattrs) cls .unprovided fe eh (.obj oc oattrs)
+      = .ok (builtCtx (.obj pc pattrs) (pd + 1) rs cls fe eh (.obj oc oattrs),
+          if exceeded md (pd + 1) then .raise (depthErr md (pd + 1) cls) else .ret .none) := by
+  gen_obligation "C18_gen_make_context (its lemma init_under): the regenerated code (Utv.Gen) is no longer equal to the hand model here" by
+    unfold Options.RuntimeContext_init
+    cases md with
+    | none =>
+      obj_simp [getattr, setattr, lookupAttr, setAttrL, h1, h2, h3, hcls, OVal.isUnprovided, toList, iter, concat, add, intOf?,
+        encMaxDepth, exceeded, builtCtx]
+    | some k =>
+      by_cases h0 : k = 0
+      · subst h0
+        obj_simp [getattr, setattr, lookupAttr, setAttrL, h1, h2, h3, hcls, OVal.isUnprovided, toList, iter, concat, add,
+          intOf?, encMaxDepth, exceeded, builtCtx]
+      · by_cases hk : k < pd + 1
+        · have hk' : (k : Int) < (pd : Int) + 1 := by omega
+          obj_simp [getattr, setattr, lookupAttr, setAttrL, h1, h2, h3, hcls, OVal.isUnprovided, toList, iter, concat, add,
+            intOf?, encMaxDepth, exceeded, builtCtx, depthErr, gt, lt, h0, hk, hk']
+        · have hk' : ¬ (k : Int) < (pd : Int) + 1 := by omega
+          obj_simp [getattr, setattr, lookupAttr, setAttrL, h1, h2, h3, hcls, OVal.isUnprovided, toList, iter, concat, add,
+            intOf?, encMaxDepth, exceeded, builtCtx, depthErr, gt, lt, h0, hk, hk']
+
+/-- … and without a parent -/
+theorem init_top (W : World Unit) (cls fe eh : U) (oc : String) (oattrs : List (String × U)) (md : Option Nat)
+    (hcls : cls.isNone = false) (h3 : lookupAttr "max_depth" oattrs = some (encMaxDepth md)) :
+    Options.RuntimeContext_init W (.obj "RuntimeContext" []) .none cls .unprovided fe eh (.obj oc oattrs)
+      = .ok (builtCtx .none 1 [] cls fe eh (.obj oc oattrs),
+          if exceeded md 1 then .raise (depthErr md 1 cls) else .ret .none) := by
+  gen_obligation "C18_gen_make_context (its lemma init_top): the regenerated code (Utv.Gen) is no longer equal to the hand model here" by
+    unfold Options.RuntimeContext_init
+    cases md with
+    | none =>
+      obj_simp [getattr, setattr, lookupAttr, setAttrL, h3, hcls, OVal.isUnprovided, concat, add, intOf?, encMaxDepth,
+        exceeded, builtCtx]
+    | some k =>
+      by_cases h0 : k = 0
+      · subst h0
+        obj_simp [getattr, setattr, lookupAttr, setAttrL, h3, hcls, OVal.isUnprovided, concat, add, intOf?, encMaxDepth,
+          exceeded, builtCtx]
+      · have hk' : ¬ (k : Int) < 1 := by omega
+        have hk : ¬ k < 1 := by omega
+        obj_simp [getattr, setattr, lookupAttr, setAttrL, h3, hcls, OVal.isUnprovided, concat, add, intOf?, encMaxDepth,
+          exceeded, builtCtx, depthErr, gt, lt, h0, hk, hk']
+
+theorem ga_built_depth (parent : U) (d : Int) (rs : List U) (cls fe eh o : U) :
+    getattr (builtCtx parent d rs cls fe eh o) "depth" = .ok (.int d) := rfl
+
+/-- `options.make_context(cls=K, context=parent)` is the model's `classCtx`: the class's own options, one level below
+the parent (no parent — `__field_setter__`, `K(**data)` — is level 1), `DepthExceedError` iff that exceeds `max_depth` -/
+theorem C18_gen_make_context (W : World Unit) (parent : Option (Ctx × List U)) (cls fe : U) (cd : ClassDecl)
+    (hcls : cls.isNone = false) :
+    decodeNew (Options.Options_make_context W (encOptionsO cd.maxDepth) cls fe (encParent parent))
+      = some (outDepth (classCtx (parentDepth parent) cd)) := by
+  gen_obligation "C18_gen_make_context: the regenerated code (Utv.Gen) is no longer equal to the hand model here" by
+    obtain ⟨fields, mode, md, dfs⟩ := cd
+    have go : getattr (encOptionsO md) "override" = .ok (.bool false) := rfl
+    cases parent with
+    | none =>
+      have hi := init_top W cls fe .none "Options" [("max_depth", encMaxDepth md), ("override", .bool false)] md hcls rfl
+      unfold Options.Options_make_context Options.RuntimeContext_new
+      simp only [encParent, truthy_none, bind, Except.bind, pure, Except.pure, Bool.false_eq_true, if_false]
+      simp only [encOptionsO, hi]
+      cases he : exceeded md 1 <;>
+        simp [decodeNew, ga_built_depth, classCtx, parentDepth, outDepth, he, depthErr, pure, Except.pure, throw, throwThe,
+          MonadExceptOf.throw]
+    | some p =>
+      obtain ⟨⟨depth, pm, pmd⟩, routes⟩ := p
+      have hi := init_under W "RuntimeContext"
+        [("depth", .int depth), ("routes", .seq .list routes), ("options", encOptionsO pmd)] depth routes cls fe .none
+        "Options" [("max_depth", encMaxDepth md), ("override", .bool false)] md hcls rfl rfl rfl
+      have gp : getattr (encParent (some (⟨depth, pm, pmd⟩, routes))) "options" = .ok (encOptionsO pmd) := rfl
+      have gpo : getattr (encOptionsO pmd) "override" = .ok (.bool false) := rfl
+      unfold Options.Options_make_context Options.RuntimeContext_new
+      simp only [show truthy (encParent (some (⟨depth, pm, pmd⟩, routes))) = .ok true from rfl, go, gp, gpo, truthy_bool, bind,
+        Except.bind, pure, Except.pure, Bool.not_false, Bool.false_eq_true, if_false, if_true]
+      simp only [encOptionsO] at hi
+      simp only [encOptionsO, encParent, hi]
+      cases he : exceeded md (depth + 1) <;>
+        simp [decodeNew, ga_built_depth, classCtx, parentDepth, outDepth, he, depthErr, pure, Except.pure, throw, throwThe,
+          MonadExceptOf.throw]
+
 end Utv.GenEq.C18
